@@ -477,7 +477,7 @@ def prodCont : Resp :=
   .http 200 700 false 700 "" "" none false
     [⟨some "sch", [⟨1, "b1", "", [("u", "1")]⟩, ⟨1, "b2", "", []⟩, ⟨0, "z", "", [("S", "t1")]⟩], false⟩] 0
 example : ((run ⟨⟨4096, 8192⟩, false, some prodStream⟩
-    [(.next, []), (.next, [prodCont]), (.next, []), (.next, [.terr]), (.next, [])]).2.1).flatMap delivered
+    [(.next, []), (.next, [prodCont]), (.next, [])]).2.1).flatMap delivered
     = [⟨"b0", 1, []⟩, ⟨"b1", 1, [("u", "1")]⟩, ⟨"b2", 1, []⟩] := by decide
 
 end Vgi.Props.C21
